@@ -91,6 +91,19 @@ static int process_one(jwt_checker_t *checker, jwt_alg_t alg, const char *token,
 	return err;
 }
 
+/* The exit status is the number of tokens that failed. Only the low 8 bits of
+ * it reach the parent, so stop counting at 255 instead of wrapping around to
+ * "success" (256 failures used to exit with status 0). */
+#define MAX_ERR_STATUS 255
+
+static int count_err(int err, int failed)
+{
+	if (failed && err < MAX_ERR_STATUS)
+		err++;
+
+	return err;
+}
+
 int main(int argc, char *argv[])
 {
 	jwt_checker_auto_t *checker = NULL;
@@ -246,12 +259,14 @@ int main(int argc, char *argv[])
 		while (fgets(token, sizeof(token), stdin) != NULL) {
 			token[strcspn(token, "\n")] = '\0';
 
-			err += process_one(checker, alg, token, quiet);
+			err = count_err(err, process_one(checker, alg, token,
+							  quiet));
 		}
 	} else {
 		for (oc = 0; oc < argc; oc++) {
 			const char *token = argv[oc];
-			err += process_one(checker, alg, token, quiet);
+			err = count_err(err, process_one(checker, alg, token,
+							  quiet));
 		}
 	}
 
